@@ -356,8 +356,20 @@ func (doc *T) derefSchema(s *Schema, refNameResolver RefNameResolver, parentIsEx
 
 	for _, list := range []SchemaRefs{s.AllOf, s.AnyOf, s.OneOf} {
 		for _, s2 := range list {
+			before := ""
+			if s2 != nil {
+				before = s2.Ref
+			}
 			isExternal := doc.addSchemaToSpec(s2, refNameResolver, parentIsExternal)
 			if s2 != nil {
+				if isExternal && s.Discriminator != nil {
+					// the discriminator's mapping names the alternatives by the same references
+					for key, target := range s.Discriminator.Mapping {
+						if target == before {
+							s.Discriminator.Mapping[key] = s2.Ref
+						}
+					}
+				}
 				doc.derefSchema(s2.Value, refNameResolver, isExternal || parentIsExternal)
 			}
 		}
